@@ -32,3 +32,1422 @@ Theorem or_short_circuit :
       else let '(ev2, s2, r) := eval_bexp St exec flag_set trainer_beaten cmp_var cmp_var_value b s1 in (ev ++ ev2, s2, r).
 Proof. exact eval_or. Qed.
 Print Assumptions or_short_circuit.
+
+(* ---------- the parser side (AutoVarParse.v) ---------- *)
+(* `compared_var av c`: the variable the command configuration names for command c (a fixed name, or the argument at the
+   configured position; out of range: none).  When the first token of a condition leaf (after an optional `!`) is an identifier
+   that the configuration lists, the leaf's preamble is exactly the command `command_stmt` parses from the same tokens - the
+   same command the statement parser returns (autovar_leaf_preamble_is_the_statement), hence the same rendering - the compared
+   variable is `compared_var`, operator and value are read by the function used for var(...) leaves with the documented
+   defaults (!= 0, negated == 0); an identifier that is not configured is rejected; same for switch (cmd(...)).  For every leaf
+   of every accepted condition (any position, any nesting): every_preamble_in_a_condition. *)
+From Pory Require Import Parser Format Consume CmdArgs BexpParse AutoVarParse.
+Theorem compared_var_spec :
+  forall (av : autovar) (c : cmd) (v : text),
+  compared_var av c = Some v <->
+  avPos av = None /\ v = avName av \/ (exists k : nat, avPos av = Some (Z.of_nat k) /\ nth_error (cargs c) k = Some v).
+Proof. exact AutoVarParse.compared_var_spec. Qed.
+Print Assumptions compared_var_spec.
+
+Theorem compared_var_none :
+  forall (av : autovar) (c : cmd),
+  compared_var av c = None <-> (exists p : Z, avPos av = Some p /\ ((p < 0)%Z \/ (Z.of_nat (length (cargs c)) <= p)%Z)).
+Proof. exact AutoVarParse.compared_var_none. Qed.
+Print Assumptions compared_var_none.
+
+Theorem autovar_leaf_equation :
+  forall (autovars : list (text * autovar)) (switches : list (text * text)) (env_errors : bool)
+    (parse_format : toks -> res (token * text * text * toks)) (consts : list (text * text)) (f : nat) (script : text) 
+    (ts0 : toks) (av : autovar),
+  let ts := leaf_start ts0 in
+  peekis IDENT ts = true ->
+  assoc autovars (tlit (pk 1 ts)) = Some av ->
+  leaf_expr autovars switches env_errors parse_format consts f script ts0 =
+  (do (c, imp, ts2) <- command_stmt switches env_errors parse_format consts f script (adv ts);
+   match compared_var av c with
+   | Some v =>
+       if peekis NOT ts0
+       then
+        Ok
+          (autovar_leaf c v OEq (t (String.String (Ascii.Ascii false false false false true true false false) String.EmptyString)) false, imp,
+           adv ts2)
+       else do (o, val, strict, ts5) <- cond_var_operator consts f (adv ts2); Ok (autovar_leaf c v o val strict, imp, ts5)
+   | None =>
+       err_range (cur (adv ts)) (cur ts2)
+         (String.String (Ascii.Ascii true false false false false true true false)
+            (String.String (Ascii.Ascii true false true false true true true false)
+               (String.String (Ascii.Ascii false false true false true true true false)
+                  (String.String (Ascii.Ascii true true true true false true true false)
+                     (String.String (Ascii.Ascii true false true true false true false false)
+                        (String.String (Ascii.Ascii false true true false true true true false)
+                           (String.String (Ascii.Ascii true false false false false true true false)
+                              (String.String (Ascii.Ascii false true false false true true true false)
+                                 (String.String (Ascii.Ascii false false false false false true false false)
+                                    (String.String (Ascii.Ascii true true false false false true true false)
+                                       (String.String (Ascii.Ascii true true true true false true true false)
+                                          (String.String (Ascii.Ascii true false true true false true true false)
+                                             (String.String (Ascii.Ascii true false true true false true true false)
+                                                (String.String (Ascii.Ascii true false false false false true true false)
+                                                   (String.String (Ascii.Ascii false true true true false true true false)
+                                                      (String.String (Ascii.Ascii false false true false false true true false)
+                                                         (String.String (Ascii.Ascii false false false false false true false false)
+                                                            (String.String (Ascii.Ascii false false false true false true true false)
+                                                               (String.String (Ascii.Ascii true false false false false true true false)
+                                                                  (String.String (Ascii.Ascii true true false false true true true false)
+                                                                     (String.String (Ascii.Ascii false false false false false true false false)
+                                                                        (String.String
+                                                                           (Ascii.Ascii true false false false false true true false)
+                                                                           (String.String
+                                                                              (Ascii.Ascii false true true true false true true false)
+                                                                              (String.String
+                                                                                 (Ascii.Ascii false false false false false true false false)
+                                                                                 (String.String
+                                                                                    (Ascii.Ascii true false false false false true true false)
+                                                                                    (String.String
+                                                                                       (Ascii.Ascii false true false false true true true false)
+                                                                                       (String.String
+                                                                                          (Ascii.Ascii true true true false false true true
+                                                                                             false)
+                                                                                          (String.String
+                                                                                             (Ascii.Ascii false false false false false true
+                                                                                                false false)
+                                                                                             (String.String
+                                                                                                (Ascii.Ascii false false false false true true
+                                                                                                   true false)
+                                                                                                (String.String
+                                                                                                   (Ascii.Ascii true true true true false true
+                                                                                                      true false)
+                                                                                                   (String.String
+                                                                                                      (Ascii.Ascii true true false false true
+                                                                                                         true true false)
+                                                                                                      (String.String
+                                                                                                         (Ascii.Ascii true false false true
+                                                                                                            false true true false)
+                                                                                                         (String.String
+                                                                                                            (Ascii.Ascii false false true false
+                                                                                                               true true true false)
+                                                                                                            (String.String
+                                                                                                               (Ascii.Ascii true false false
+                                                                                                                  true false true true false)
+                                                                                                               (String.String
+                                                                                                                  (Ascii.Ascii true true true
+                                                                                                                   true false true true false)
+                                                                                                                  (String.String
+                                                                                                                   (Ascii.Ascii false true true
+                                                                                                                   true false true true false)
+                                                                                                                   (String.String
+                                                                                                                   (Ascii.Ascii false false
+                                                                                                                   false false false true false
+                                                                                                                   false)
+                                                                                                                   (String.String
+                                                                                                                   (Ascii.Ascii true true true
+                                                                                                                   true false true true false)
+                                                                                                                   (String.String
+                                                                                                                   (Ascii.Ascii true false true
+                                                                                                                   false true true true false)
+                                                                                                                   (String.String
+                                                                                                                   (Ascii.Ascii false false true
+                                                                                                                   false true true true false)
+                                                                                                                   (String.String
+                                                                                                                   (Ascii.Ascii false false
+                                                                                                                   false false false true false
+                                                                                                                   false)
+                                                                                                                   (String.String
+                                                                                                                   (Ascii.Ascii true true true
+                                                                                                                   true false true true false)
+                                                                                                                   (String.String
+                                                                                                                   (Ascii.Ascii false true true
+                                                                                                                   false false true true false)
+                                                                                                                   (String.String
+                                                                                                                   (Ascii.Ascii false false
+                                                                                                                   false false false true false
+                                                                                                                   false)
+                                                                                                                   (String.String
+                                                                                                                   (Ascii.Ascii false true false
+                                                                                                                   false true true true false)
+                                                                                                                   (String.String
+                                                                                                                   (Ascii.Ascii true false false
+                                                                                                                   false false true true false)
+                                                                                                                   (String.String
+                                                                                                                   (Ascii.Ascii false true true
+                                                                                                                   true false true true false)
+                                                                                                                   (String.String
+                                                                                                                   (Ascii.Ascii true true true
+                                                                                                                   false false true true false)
+                                                                                                                   (String.String
+                                                                                                                   (Ascii.Ascii true false true
+                                                                                                                   false false true true false)
+                                                                                                                   String.EmptyString)))))))))))))))))))))))))))))))))))))))))))))))))
+   end).
+Proof. exact AutoVarParse.autovar_leaf_equation. Qed.
+Print Assumptions autovar_leaf_equation.
+
+Theorem unconfigured_command_leaf_rejected :
+  forall (autovars : list (text * autovar)) (switches : list (text * text)) (env_errors : bool)
+    (parse_format : toks -> res (token * text * text * toks)) (consts : list (text * text)) (f : nat) (script : text) 
+    (ts0 : toks),
+  let ts := leaf_start ts0 in
+  peekis IDENT ts = true ->
+  assoc autovars (tlit (pk 1 ts)) = None ->
+  leaf_expr autovars switches env_errors parse_format consts f script ts0 =
+  err_tok (pk 1 ts)
+    (String.String (Ascii.Ascii false false true true false true true false)
+       (String.String (Ascii.Ascii true false true false false true true false)
+          (String.String (Ascii.Ascii false true true false false true true false)
+             (String.String (Ascii.Ascii false false true false true true true false)
+                (String.String (Ascii.Ascii false false false false false true false false)
+                   (String.String (Ascii.Ascii true true false false true true true false)
+                      (String.String (Ascii.Ascii true false false true false true true false)
+                         (String.String (Ascii.Ascii false false true false false true true false)
+                            (String.String (Ascii.Ascii true false true false false true true false)
+                               (String.String (Ascii.Ascii false false false false false true false false)
+                                  (String.String (Ascii.Ascii true true true true false true true false)
+                                     (String.String (Ascii.Ascii false true true false false true true false)
+                                        (String.String (Ascii.Ascii false false false false false true false false)
+                                           (String.String (Ascii.Ascii false true false false false true true false)
+                                              (String.String (Ascii.Ascii true false false true false true true false)
+                                                 (String.String (Ascii.Ascii false true true true false true true false)
+                                                    (String.String (Ascii.Ascii true false false false false true true false)
+                                                       (String.String (Ascii.Ascii false true false false true true true false)
+                                                          (String.String (Ascii.Ascii true false false true true true true false)
+                                                             (String.String (Ascii.Ascii false false false false false true false false)
+                                                                (String.String (Ascii.Ascii true false true false false true true false)
+                                                                   (String.String (Ascii.Ascii false false false true true true true false)
+                                                                      (String.String (Ascii.Ascii false false false false true true true false)
+                                                                         (String.String
+                                                                            (Ascii.Ascii false true false false true true true false)
+                                                                            (String.String
+                                                                               (Ascii.Ascii true false true false false true true false)
+                                                                               (String.String
+                                                                                  (Ascii.Ascii true true false false true true true false)
+                                                                                  (String.String
+                                                                                     (Ascii.Ascii true true false false true true true false)
+                                                                                     (String.String
+                                                                                        (Ascii.Ascii true false false true false true true false)
+                                                                                        (String.String
+                                                                                           (Ascii.Ascii true true true true false true true
+                                                                                              false)
+                                                                                           (String.String
+                                                                                              (Ascii.Ascii false true true true false true true
+                                                                                                 false)
+                                                                                              (String.String
+                                                                                                 (Ascii.Ascii false false false false false true
+                                                                                                    false false)
+                                                                                                 (String.String
+                                                                                                    (Ascii.Ascii true false true true false true
+                                                                                                       true false)
+                                                                                                    (String.String
+                                                                                                       (Ascii.Ascii true false true false true
+                                                                                                          true true false)
+                                                                                                       (String.String
+                                                                                                          (Ascii.Ascii true true false false
+                                                                                                             true true true false)
+                                                                                                          (String.String
+                                                                                                             (Ascii.Ascii false false true false
+                                                                                                                true true true false)
+                                                                                                             (String.String
+                                                                                                                (Ascii.Ascii false false false
+                                                                                                                   false false true false false)
+                                                                                                                (String.String
+                                                                                                                   (Ascii.Ascii false true false
+                                                                                                                   false false true true false)
+                                                                                                                   (String.String
+                                                                                                                   (Ascii.Ascii true false true
+                                                                                                                   false false true true false)
+                                                                                                                   (String.String
+                                                                                                                   (Ascii.Ascii false false
+                                                                                                                   false false false true false
+                                                                                                                   false)
+                                                                                                                   (String.String
+                                                                                                                   (Ascii.Ascii false true true
+                                                                                                                   false true true true false)
+                                                                                                                   (String.String
+                                                                                                                   (Ascii.Ascii true false false
+                                                                                                                   false false true true false)
+                                                                                                                   (String.String
+                                                                                                                   (Ascii.Ascii false true false
+                                                                                                                   false true true true false)
+                                                                                                                   (String.String
+                                                                                                                   (Ascii.Ascii false false
+                                                                                                                   false true false true false
+                                                                                                                   false)
+                                                                                                                   (String.String
+                                                                                                                   (Ascii.Ascii true false false
+                                                                                                                   true false true false false)
+                                                                                                                   (String.String
+                                                                                                                   (Ascii.Ascii false false true
+                                                                                                                   true false true false false)
+                                                                                                                   (String.String
+                                                                                                                   (Ascii.Ascii false false
+                                                                                                                   false false false true false
+                                                                                                                   false)
+                                                                                                                   (String.String
+                                                                                                                   (Ascii.Ascii false true true
+                                                                                                                   false false true true false)
+                                                                                                                   (String.String
+                                                                                                                   (Ascii.Ascii false false true
+                                                                                                                   true false true true false)
+                                                                                                                   (String.String
+                                                                                                                   (Ascii.Ascii true false false
+                                                                                                                   false false true true false)
+                                                                                                                   (String.String
+                                                                                                                   (Ascii.Ascii true true true
+                                                                                                                   false false true true false)
+                                                                                                                   (String.String
+                                                                                                                   (Ascii.Ascii false false
+                                                                                                                   false true false true false
+                                                                                                                   false)
+                                                                                                                   (String.String
+                                                                                                                   (Ascii.Ascii true false false
+                                                                                                                   true false true false false)
+                                                                                                                   (String.String
+                                                                                                                   (Ascii.Ascii false false true
+                                                                                                                   true false true false false)
+                                                                                                                   (String.String
+                                                                                                                   (Ascii.Ascii false false
+                                                                                                                   false false false true false
+                                                                                                                   false)
+                                                                                                                   (String.String
+                                                                                                                   (Ascii.Ascii false false true
+                                                                                                                   false false true true false)
+                                                                                                                   (String.String
+                                                                                                                   (Ascii.Ascii true false true
+                                                                                                                   false false true true false)
+                                                                                                                   (String.String
+                                                                                                                   (Ascii.Ascii false true true
+                                                                                                                   false false true true false)
+                                                                                                                   (String.String
+                                                                                                                   (Ascii.Ascii true false true
+                                                                                                                   false false true true false)
+                                                                                                                   (String.String
+                                                                                                                   (Ascii.Ascii true false false
+                                                                                                                   false false true true false)
+                                                                                                                   (String.String
+                                                                                                                   (Ascii.Ascii false false true
+                                                                                                                   false true true true false)
+                                                                                                                   (String.String
+                                                                                                                   (Ascii.Ascii true false true
+                                                                                                                   false false true true false)
+                                                                                                                   (String.String
+                                                                                                                   (Ascii.Ascii false false true
+                                                                                                                   false false true true false)
+                                                                                                                   (String.String
+                                                                                                                   (Ascii.Ascii false false
+                                                                                                                   false true false true false
+                                                                                                                   false)
+                                                                                                                   (String.String
+                                                                                                                   (Ascii.Ascii true false false
+                                                                                                                   true false true false false)
+                                                                                                                   (String.String
+                                                                                                                   (Ascii.Ascii false false true
+                                                                                                                   true false true false false)
+                                                                                                                   (String.String
+                                                                                                                   (Ascii.Ascii false false
+                                                                                                                   false false false true false
+                                                                                                                   false)
+                                                                                                                   (String.String
+                                                                                                                   (Ascii.Ascii true true true
+                                                                                                                   true false true true false)
+                                                                                                                   (String.String
+                                                                                                                   (Ascii.Ascii false true false
+                                                                                                                   false true true true false)
+                                                                                                                   (String.String
+                                                                                                                   (Ascii.Ascii false false
+                                                                                                                   false false false true false
+                                                                                                                   false)
+                                                                                                                   (String.String
+                                                                                                                   (Ascii.Ascii true false false
+                                                                                                                   false false true true false)
+                                                                                                                   (String.String
+                                                                                                                   (Ascii.Ascii true false true
+                                                                                                                   false true true true false)
+                                                                                                                   (String.String
+                                                                                                                   (Ascii.Ascii false false true
+                                                                                                                   false true true true false)
+                                                                                                                   (String.String
+                                                                                                                   (Ascii.Ascii true true true
+                                                                                                                   true false true true false)
+                                                                                                                   (String.String
+                                                                                                                   (Ascii.Ascii false true true
+                                                                                                                   false true true true false)
+                                                                                                                   (String.String
+                                                                                                                   (Ascii.Ascii true false false
+                                                                                                                   false false true true false)
+                                                                                                                   (String.String
+                                                                                                                   (Ascii.Ascii false true false
+                                                                                                                   false true true true false)
+                                                                                                                   (String.String
+                                                                                                                   (Ascii.Ascii false false
+                                                                                                                   false false false true false
+                                                                                                                   false)
+                                                                                                                   (String.String
+                                                                                                                   (Ascii.Ascii true true false
+                                                                                                                   false false true true false)
+                                                                                                                   (String.String
+                                                                                                                   (Ascii.Ascii true true true
+                                                                                                                   true false true true false)
+                                                                                                                   (String.String
+                                                                                                                   (Ascii.Ascii true false true
+                                                                                                                   true false true true false)
+                                                                                                                   (String.String
+                                                                                                                   (Ascii.Ascii true false true
+                                                                                                                   true false true true false)
+                                                                                                                   (String.String
+                                                                                                                   (Ascii.Ascii true false false
+                                                                                                                   false false true true false)
+                                                                                                                   (String.String
+                                                                                                                   (Ascii.Ascii false true true
+                                                                                                                   true false true true false)
+                                                                                                                   (String.String
+                                                                                                                   (Ascii.Ascii false false true
+                                                                                                                   false false true true false)
+                                                                                                                   String.EmptyString)))))))))))))))))))))))))))))))))))))))))))))))))))))))))))))))))))))))))))))))))))).
+Proof. exact AutoVarParse.unconfigured_command_leaf_rejected. Qed.
+Print Assumptions unconfigured_command_leaf_rejected.
+
+Theorem leaf_parse_cases :
+  forall (autovars : list (text * autovar)) (switches : list (text * text)) (env_errors : bool)
+    (parse_format : toks -> res (token * text * text * toks)) (consts : list (text * text)) (f : nat) (script : text) 
+    (ts0 : toks) (l : leaf) (imp : impdata) (rest : toks),
+  let ts := leaf_start ts0 in
+  leaf_expr autovars switches env_errors parse_format consts f script ts0 = Ok (l, imp, rest) ->
+  peek_is_autovar autovars ts = true /\
+  (exists (av : autovar) (c : cmd) (ts2 : toks),
+     peekis IDENT ts = true /\
+     assoc autovars (tlit (pk 1 ts)) = Some av /\
+     command_stmt switches env_errors parse_format consts f script (adv ts) = Ok (c, imp, ts2) /\
+     lpre l = Some c /\
+     lk l = KVar /\
+     lline l = tline (ctok c) /\
+     compared_var av c = Some (loperand l) /\
+     (if peekis NOT ts0
+      then
+       lop l = OEq /\
+       lvalue l = t (String.String (Ascii.Ascii false false false false true true false false) String.EmptyString) /\
+       lstrict l = false /\ rest = adv ts2
+      else cond_var_operator consts f (adv ts2) = Ok (lop l, lvalue l, lstrict l, rest))) \/
+  peek_is_autovar autovars ts = false /\ lpre l = None.
+Proof. exact AutoVarParse.leaf_parse_cases. Qed.
+Print Assumptions leaf_parse_cases.
+
+Theorem autovar_leaf_position_out_of_range :
+  forall (autovars : list (text * autovar)) (switches : list (text * text)) (env_errors : bool)
+    (parse_format : toks -> res (token * text * text * toks)) (consts : list (text * text)) (f : nat) (script : text) 
+    (ts0 : toks) (av : autovar) (p : Z) (c : cmd) (imp : impdata) (ts2 : toks),
+  let ts := leaf_start ts0 in
+  peekis IDENT ts = true ->
+  assoc autovars (tlit (pk 1 ts)) = Some av ->
+  avPos av = Some p ->
+  command_stmt switches env_errors parse_format consts f script (adv ts) = Ok (c, imp, ts2) ->
+  (p < 0)%Z \/ (Z.of_nat (length (cargs c)) <= p)%Z ->
+  leaf_expr autovars switches env_errors parse_format consts f script ts0 =
+  err_range (pk 1 ts) (cur ts2)
+    (String.String (Ascii.Ascii true false false false false true true false)
+       (String.String (Ascii.Ascii true false true false true true true false)
+          (String.String (Ascii.Ascii false false true false true true true false)
+             (String.String (Ascii.Ascii true true true true false true true false)
+                (String.String (Ascii.Ascii true false true true false true false false)
+                   (String.String (Ascii.Ascii false true true false true true true false)
+                      (String.String (Ascii.Ascii true false false false false true true false)
+                         (String.String (Ascii.Ascii false true false false true true true false)
+                            (String.String (Ascii.Ascii false false false false false true false false)
+                               (String.String (Ascii.Ascii true true false false false true true false)
+                                  (String.String (Ascii.Ascii true true true true false true true false)
+                                     (String.String (Ascii.Ascii true false true true false true true false)
+                                        (String.String (Ascii.Ascii true false true true false true true false)
+                                           (String.String (Ascii.Ascii true false false false false true true false)
+                                              (String.String (Ascii.Ascii false true true true false true true false)
+                                                 (String.String (Ascii.Ascii false false true false false true true false)
+                                                    (String.String (Ascii.Ascii false false false false false true false false)
+                                                       (String.String (Ascii.Ascii false false false true false true true false)
+                                                          (String.String (Ascii.Ascii true false false false false true true false)
+                                                             (String.String (Ascii.Ascii true true false false true true true false)
+                                                                (String.String (Ascii.Ascii false false false false false true false false)
+                                                                   (String.String (Ascii.Ascii true false false false false true true false)
+                                                                      (String.String (Ascii.Ascii false true true true false true true false)
+                                                                         (String.String
+                                                                            (Ascii.Ascii false false false false false true false false)
+                                                                            (String.String
+                                                                               (Ascii.Ascii true false false false false true true false)
+                                                                               (String.String
+                                                                                  (Ascii.Ascii false true false false true true true false)
+                                                                                  (String.String
+                                                                                     (Ascii.Ascii true true true false false true true false)
+                                                                                     (String.String
+                                                                                        (Ascii.Ascii false false false false false true false
+                                                                                           false)
+                                                                                        (String.String
+                                                                                           (Ascii.Ascii false false false false true true true
+                                                                                              false)
+                                                                                           (String.String
+                                                                                              (Ascii.Ascii true true true true false true true
+                                                                                                 false)
+                                                                                              (String.String
+                                                                                                 (Ascii.Ascii true true false false true true
+                                                                                                    true false)
+                                                                                                 (String.String
+                                                                                                    (Ascii.Ascii true false false true false
+                                                                                                       true true false)
+                                                                                                    (String.String
+                                                                                                       (Ascii.Ascii false false true false true
+                                                                                                          true true false)
+                                                                                                       (String.String
+                                                                                                          (Ascii.Ascii true false false true
+                                                                                                             false true true false)
+                                                                                                          (String.String
+                                                                                                             (Ascii.Ascii true true true true
+                                                                                                                false true true false)
+                                                                                                             (String.String
+                                                                                                                (Ascii.Ascii false true true
+                                                                                                                   true false true true false)
+                                                                                                                (String.String
+                                                                                                                   (Ascii.Ascii false false
+                                                                                                                   false false false true false
+                                                                                                                   false)
+                                                                                                                   (String.String
+                                                                                                                   (Ascii.Ascii true true true
+                                                                                                                   true false true true false)
+                                                                                                                   (String.String
+                                                                                                                   (Ascii.Ascii true false true
+                                                                                                                   false true true true false)
+                                                                                                                   (String.String
+                                                                                                                   (Ascii.Ascii false false true
+                                                                                                                   false true true true false)
+                                                                                                                   (String.String
+                                                                                                                   (Ascii.Ascii false false
+                                                                                                                   false false false true false
+                                                                                                                   false)
+                                                                                                                   (String.String
+                                                                                                                   (Ascii.Ascii true true true
+                                                                                                                   true false true true false)
+                                                                                                                   (String.String
+                                                                                                                   (Ascii.Ascii false true true
+                                                                                                                   false false true true false)
+                                                                                                                   (String.String
+                                                                                                                   (Ascii.Ascii false false
+                                                                                                                   false false false true false
+                                                                                                                   false)
+                                                                                                                   (String.String
+                                                                                                                   (Ascii.Ascii false true false
+                                                                                                                   false true true true false)
+                                                                                                                   (String.String
+                                                                                                                   (Ascii.Ascii true false false
+                                                                                                                   false false true true false)
+                                                                                                                   (String.String
+                                                                                                                   (Ascii.Ascii false true true
+                                                                                                                   true false true true false)
+                                                                                                                   (String.String
+                                                                                                                   (Ascii.Ascii true true true
+                                                                                                                   false false true true false)
+                                                                                                                   (String.String
+                                                                                                                   (Ascii.Ascii true false true
+                                                                                                                   false false true true false)
+                                                                                                                   String.EmptyString))))))))))))))))))))))))))))))))))))))))))))))))).
+Proof. exact AutoVarParse.autovar_leaf_position_out_of_range. Qed.
+Print Assumptions autovar_leaf_position_out_of_range.
+
+Theorem var_leaf_comparison :
+  forall (autovars : list (text * autovar)) (switches : list (text * text)) (env_errors : bool)
+    (parse_format : toks -> res (token * text * text * toks)) (consts : list (text * text)) (f : nat) (script : text) 
+    (ts0 : toks) (l : leaf) (imp : impdata) (rest : toks),
+  let ts := leaf_start ts0 in
+  leaf_expr autovars switches env_errors parse_format consts f script ts0 = Ok (l, imp, rest) ->
+  peekis VAR ts = true ->
+  lpre l = None /\
+  lk l = KVar /\
+  (exists ts4 : toks,
+     if peekis NOT ts0
+     then
+      lop l = OEq /\
+      lvalue l = t (String.String (Ascii.Ascii false false false false true true false false) String.EmptyString) /\
+      lstrict l = false /\ rest = adv ts4
+     else cond_var_operator consts f (adv ts4) = Ok (lop l, lvalue l, lstrict l, rest)).
+Proof. exact AutoVarParse.var_leaf_comparison. Qed.
+Print Assumptions var_leaf_comparison.
+
+Theorem autovar_leaf_default_comparison :
+  forall (autovars : list (text * autovar)) (switches : list (text * text)) (env_errors : bool)
+    (parse_format : toks -> res (token * text * text * toks)) (consts : list (text * text)) (f : nat) (script : text) 
+    (ts0 : toks) (av : autovar) (c : cmd) (imp : impdata) (ts2 : toks) (v : text),
+  let ts := leaf_start ts0 in
+  peekis IDENT ts = true ->
+  assoc autovars (tlit (pk 1 ts)) = Some av ->
+  command_stmt switches env_errors parse_format consts f script (adv ts) = Ok (c, imp, ts2) ->
+  compared_var av c = Some v ->
+  peekis NOT ts0 = true \/ is_cmp_tok (cur (adv ts2)) = None ->
+  leaf_expr autovars switches env_errors parse_format consts f script ts0 =
+  Ok
+    (autovar_leaf c v (if peekis NOT ts0 then OEq else ONe)
+       (t (String.String (Ascii.Ascii false false false false true true false false) String.EmptyString)) false, imp, 
+     adv ts2).
+Proof. exact AutoVarParse.autovar_leaf_default_comparison. Qed.
+Print Assumptions autovar_leaf_default_comparison.
+
+Theorem autovar_leaf_preamble_is_the_statement :
+  forall (autovars : list (text * autovar)) (switches : list (text * text)) (env_errors : bool)
+    (parse_format : toks -> res (token * text * text * toks)) (consts : list (text * text)) (f : nat) (script : text) 
+    (bs cs : list nat) (ts0 : toks) (l : leaf) (imp : impdata) (rest : toks),
+  let ts := leaf_start ts0 in
+  leaf_expr autovars switches env_errors parse_format consts f script ts0 = Ok (l, imp, rest) ->
+  peekis IDENT ts = true ->
+  try_label (adv ts) = None ->
+  exists (c : cmd) (ts2 : toks),
+    lpre l = Some c /\
+    parse_stmt autovars switches env_errors parse_format consts (S f) script bs cs (adv ts) = Ok ([SCmd c], imp, ts2) /\
+    (if peekis NOT ts0
+     then rest = adv ts2
+     else exists (o : cmpop) (v : text) (st : bool), cond_var_operator consts f (adv ts2) = Ok (o, v, st, rest)).
+Proof. exact AutoVarParse.autovar_leaf_preamble_is_the_statement. Qed.
+Print Assumptions autovar_leaf_preamble_is_the_statement.
+
+Theorem autovar_switch_equation :
+  forall (autovars : list (text * autovar)) (switches : list (text * text)) (env_errors : bool)
+    (parse_format : toks -> res (token * text * text * toks)) (consts : list (text * text)) (f : nat) (script : text) 
+    (bs cs : list nat) (ts : toks) (av : autovar),
+  peekis LPAREN ts = true ->
+  peekis VAR (adv ts) = false ->
+  assoc autovars (tlit (pk 1 (adv ts))) = Some av ->
+  parse_switch autovars switches env_errors parse_format consts (S f) script bs cs ts =
+  (do (c, imp, ts2) <- command_stmt switches env_errors parse_format consts f script (adv (adv ts));
+   match compared_var av c with
+   | Some v =>
+       if negb (peekis RPAREN ts2)
+       then
+        err_tok (cur ts)
+          (String.String (Ascii.Ascii true false true true false true true false)
+             (String.String (Ascii.Ascii true false false true false true true false)
+                (String.String (Ascii.Ascii true true false false true true true false)
+                   (String.String (Ascii.Ascii true true false false true true true false)
+                      (String.String (Ascii.Ascii true false false true false true true false)
+                         (String.String (Ascii.Ascii false true true true false true true false)
+                            (String.String (Ascii.Ascii true true true false false true true false)
+                               (String.String (Ascii.Ascii false false false false false true false false)
+                                  (String.String (Ascii.Ascii true true false false false true true false)
+                                     (String.String (Ascii.Ascii false false true true false true true false)
+                                        (String.String (Ascii.Ascii true true true true false true true false)
+                                           (String.String (Ascii.Ascii true true false false true true true false)
+                                              (String.String (Ascii.Ascii true false false true false true true false)
+                                                 (String.String (Ascii.Ascii false true true true false true true false)
+                                                    (String.String (Ascii.Ascii true true true false false true true false)
+                                                       (String.String (Ascii.Ascii false false false false false true false false)
+                                                          (String.String (Ascii.Ascii false false false false true true true false)
+                                                             (String.String (Ascii.Ascii true false false false false true true false)
+                                                                (String.String (Ascii.Ascii false true false false true true true false)
+                                                                   (String.String (Ascii.Ascii true false true false false true true false)
+                                                                      (String.String (Ascii.Ascii false true true true false true true false)
+                                                                         (String.String
+                                                                            (Ascii.Ascii false false true false true true true false)
+                                                                            (String.String
+                                                                               (Ascii.Ascii false false false true false true true false)
+                                                                               (String.String
+                                                                                  (Ascii.Ascii true false true false false true true false)
+                                                                                  (String.String
+                                                                                     (Ascii.Ascii true true false false true true true false)
+                                                                                     (String.String
+                                                                                        (Ascii.Ascii true false false true false true true false)
+                                                                                        (String.String
+                                                                                           (Ascii.Ascii true true false false true true true
+                                                                                              false)
+                                                                                           (String.String
+                                                                                              (Ascii.Ascii false false false false false true
+                                                                                                 false false)
+                                                                                              (String.String
+                                                                                                 (Ascii.Ascii true true true true false true
+                                                                                                    true false)
+                                                                                                 (String.String
+                                                                                                    (Ascii.Ascii false true true false false
+                                                                                                       true true false)
+                                                                                                    (String.String
+                                                                                                       (Ascii.Ascii false false false false
+                                                                                                          false true false false)
+                                                                                                       (String.String
+                                                                                                          (Ascii.Ascii true true false false
+                                                                                                             true true true false)
+                                                                                                          (String.String
+                                                                                                             (Ascii.Ascii true true true false
+                                                                                                                true true true false)
+                                                                                                             (String.String
+                                                                                                                (Ascii.Ascii true false false
+                                                                                                                   true false true true false)
+                                                                                                                (String.String
+                                                                                                                   (Ascii.Ascii false false true
+                                                                                                                   false true true true false)
+                                                                                                                   (String.String
+                                                                                                                   (Ascii.Ascii true true false
+                                                                                                                   false false true true false)
+                                                                                                                   (String.String
+                                                                                                                   (Ascii.Ascii false false
+                                                                                                                   false true false true true
+                                                                                                                   false)
+                                                                                                                   (String.String
+                                                                                                                   (Ascii.Ascii false false
+                                                                                                                   false false false true false
+                                                                                                                   false)
+                                                                                                                   (String.String
+                                                                                                                   (Ascii.Ascii true true false
+                                                                                                                   false true true true false)
+                                                                                                                   (String.String
+                                                                                                                   (Ascii.Ascii false false true
+                                                                                                                   false true true true false)
+                                                                                                                   (String.String
+                                                                                                                   (Ascii.Ascii true false false
+                                                                                                                   false false true true false)
+                                                                                                                   (String.String
+                                                                                                                   (Ascii.Ascii false false true
+                                                                                                                   false true true true false)
+                                                                                                                   (String.String
+                                                                                                                   (Ascii.Ascii true false true
+                                                                                                                   false false true true false)
+                                                                                                                   (String.String
+                                                                                                                   (Ascii.Ascii true false true
+                                                                                                                   true false true true false)
+                                                                                                                   (String.String
+                                                                                                                   (Ascii.Ascii true false true
+                                                                                                                   false false true true false)
+                                                                                                                   (String.String
+                                                                                                                   (Ascii.Ascii false true true
+                                                                                                                   true false true true false)
+                                                                                                                   (String.String
+                                                                                                                   (Ascii.Ascii false false true
+                                                                                                                   false true true true false)
+                                                                                                                   (String.String
+                                                                                                                   (Ascii.Ascii false false
+                                                                                                                   false false false true false
+                                                                                                                   false)
+                                                                                                                   (String.String
+                                                                                                                   (Ascii.Ascii false true true
+                                                                                                                   false true true true false)
+                                                                                                                   (String.String
+                                                                                                                   (Ascii.Ascii true false false
+                                                                                                                   false false true true false)
+                                                                                                                   (String.String
+                                                                                                                   (Ascii.Ascii false false true
+                                                                                                                   true false true true false)
+                                                                                                                   (String.String
+                                                                                                                   (Ascii.Ascii true false true
+                                                                                                                   false true true true false)
+                                                                                                                   (String.String
+                                                                                                                   (Ascii.Ascii true false true
+                                                                                                                   false false true true false)
+                                                                                                                   String.EmptyString)))))))))))))))))))))))))))))))))))))))))))))))))))))
+       else
+        let ts3 := adv ts2 in
+        if negb (peekis LBRACE ts3)
+        then
+         err_range (cur ts3) (pk 1 ts3)
+           (String.String (Ascii.Ascii true false true true false true true false)
+              (String.String (Ascii.Ascii true false false true false true true false)
+                 (String.String (Ascii.Ascii true true false false true true true false)
+                    (String.String (Ascii.Ascii true true false false true true true false)
+                       (String.String (Ascii.Ascii true false false true false true true false)
+                          (String.String (Ascii.Ascii false true true true false true true false)
+                             (String.String (Ascii.Ascii true true true false false true true false)
+                                (String.String (Ascii.Ascii false false false false false true false false)
+                                   (String.String (Ascii.Ascii true true true true false true true false)
+                                      (String.String (Ascii.Ascii false false false false true true true false)
+                                         (String.String (Ascii.Ascii true false true false false true true false)
+                                            (String.String (Ascii.Ascii false true true true false true true false)
+                                               (String.String (Ascii.Ascii true false false true false true true false)
+                                                  (String.String (Ascii.Ascii false true true true false true true false)
+                                                     (String.String (Ascii.Ascii true true true false false true true false)
+                                                        (String.String (Ascii.Ascii false false false false false true false false)
+                                                           (String.String (Ascii.Ascii true true false false false true true false)
+                                                              (String.String (Ascii.Ascii true false true false true true true false)
+                                                                 (String.String (Ascii.Ascii false true false false true true true false)
+                                                                    (String.String (Ascii.Ascii false false true true false true true false)
+                                                                       (String.String (Ascii.Ascii true false false true true true true false)
+                                                                          (String.String
+                                                                             (Ascii.Ascii false false false false false true false false)
+                                                                             (String.String
+                                                                                (Ascii.Ascii false true false false false true true false)
+                                                                                (String.String
+                                                                                   (Ascii.Ascii false true false false true true true false)
+                                                                                   (String.String
+                                                                                      (Ascii.Ascii true false false false false true true false)
+                                                                                      (String.String
+                                                                                         (Ascii.Ascii true true false false false true true
+                                                                                            false)
+                                                                                         (String.String
+                                                                                            (Ascii.Ascii true false true false false true true
+                                                                                               false)
+                                                                                            (String.String
+                                                                                               (Ascii.Ascii false false false false false true
+                                                                                                  false false)
+                                                                                               (String.String
+                                                                                                  (Ascii.Ascii true true true true false true
+                                                                                                     true false)
+                                                                                                  (String.String
+                                                                                                     (Ascii.Ascii false true true false false
+                                                                                                        true true false)
+                                                                                                     (String.String
+                                                                                                        (Ascii.Ascii false false false false
+                                                                                                           false true false false)
+                                                                                                        (String.String
+                                                                                                           (Ascii.Ascii true true false false
+                                                                                                              true true true false)
+                                                                                                           (String.String
+                                                                                                              (Ascii.Ascii true true true false
+                                                                                                                 true true true false)
+                                                                                                              (String.String
+                                                                                                                 (Ascii.Ascii true false false
+                                                                                                                   true false true true false)
+                                                                                                                 (String.String
+                                                                                                                   (Ascii.Ascii false false true
+                                                                                                                   false true true true false)
+                                                                                                                   (String.String
+                                                                                                                   (Ascii.Ascii true true false
+                                                                                                                   false false true true false)
+                                                                                                                   (String.String
+                                                                                                                   (Ascii.Ascii false false
+                                                                                                                   false true false true true
+                                                                                                                   false)
+                                                                                                                   (String.String
+                                                                                                                   (Ascii.Ascii false false
+                                                                                                                   false false false true false
+                                                                                                                   false)
+                                                                                                                   (String.String
+                                                                                                                   (Ascii.Ascii true true false
+                                                                                                                   false true true true false)
+                                                                                                                   (String.String
+                                                                                                                   (Ascii.Ascii false false true
+                                                                                                                   false true true true false)
+                                                                                                                   (String.String
+                                                                                                                   (Ascii.Ascii true false false
+                                                                                                                   false false true true false)
+                                                                                                                   (String.String
+                                                                                                                   (Ascii.Ascii false false true
+                                                                                                                   false true true true false)
+                                                                                                                   (String.String
+                                                                                                                   (Ascii.Ascii true false true
+                                                                                                                   false false true true false)
+                                                                                                                   (String.String
+                                                                                                                   (Ascii.Ascii true false true
+                                                                                                                   true false true true false)
+                                                                                                                   (String.String
+                                                                                                                   (Ascii.Ascii true false true
+                                                                                                                   false false true true false)
+                                                                                                                   (String.String
+                                                                                                                   (Ascii.Ascii false true true
+                                                                                                                   true false true true false)
+                                                                                                                   (String.String
+                                                                                                                   (Ascii.Ascii false false true
+                                                                                                                   false true true true false)
+                                                                                                                   String.EmptyString)))))))))))))))))))))))))))))))))))))))))))))))
+        else
+         let ts4 := adv ts3 in
+         match
+           parse_cases autovars switches env_errors parse_format consts f script (length ts :: bs) cs (cur ts4) (adv ts4) [] [] false imp0
+         with
+         | Ok ([], _, ts5) =>
+             err_range (cur ts) (cur ts5)
+               (String.String (Ascii.Ascii true true false false true true true false)
+                  (String.String (Ascii.Ascii true true true false true true true false)
+                     (String.String (Ascii.Ascii true false false true false true true false)
+                        (String.String (Ascii.Ascii false false true false true true true false)
+                           (String.String (Ascii.Ascii true true false false false true true false)
+                              (String.String (Ascii.Ascii false false false true false true true false)
+                                 (String.String (Ascii.Ascii false false false false false true false false)
+                                    (String.String (Ascii.Ascii true true false false true true true false)
+                                       (String.String (Ascii.Ascii false false true false true true true false)
+                                          (String.String (Ascii.Ascii true false false false false true true false)
+                                             (String.String (Ascii.Ascii false false true false true true true false)
+                                                (String.String (Ascii.Ascii true false true false false true true false)
+                                                   (String.String (Ascii.Ascii true false true true false true true false)
+                                                      (String.String (Ascii.Ascii true false true false false true true false)
+                                                         (String.String (Ascii.Ascii false true true true false true true false)
+                                                            (String.String (Ascii.Ascii false false true false true true true false)
+                                                               (String.String (Ascii.Ascii false false false false false true false false)
+                                                                  (String.String (Ascii.Ascii false false false true false true true false)
+                                                                     (String.String (Ascii.Ascii true false false false false true true false)
+                                                                        (String.String (Ascii.Ascii true true false false true true true false)
+                                                                           (String.String
+                                                                              (Ascii.Ascii false false false false false true false false)
+                                                                              (String.String
+                                                                                 (Ascii.Ascii false true true true false true true false)
+                                                                                 (String.String
+                                                                                    (Ascii.Ascii true true true true false true true false)
+                                                                                    (String.String
+                                                                                       (Ascii.Ascii false false false false false true false
+                                                                                          false)
+                                                                                       (String.String
+                                                                                          (Ascii.Ascii true true false false false true true
+                                                                                             false)
+                                                                                          (String.String
+                                                                                             (Ascii.Ascii true false false false false true true
+                                                                                                false)
+                                                                                             (String.String
+                                                                                                (Ascii.Ascii true true false false true true
+                                                                                                   true false)
+                                                                                                (String.String
+                                                                                                   (Ascii.Ascii true false true false false true
+                                                                                                      true false)
+                                                                                                   (String.String
+                                                                                                      (Ascii.Ascii true true false false true
+                                                                                                         true true false)
+                                                                                                      (String.String
+                                                                                                         (Ascii.Ascii false false false false
+                                                                                                            false true false false)
+                                                                                                         (String.String
+                                                                                                            (Ascii.Ascii true true true true
+                                                                                                               false true true false)
+                                                                                                            (String.String
+                                                                                                               (Ascii.Ascii false true false
+                                                                                                                  false true true true false)
+                                                                                                               (String.String
+                                                                                                                  (Ascii.Ascii false false false
+                                                                                                                   false false true false false)
+                                                                                                                  (String.String
+                                                                                                                   (Ascii.Ascii false false true
+                                                                                                                   false false true true false)
+                                                                                                                   (String.String
+                                                                                                                   (Ascii.Ascii true false true
+                                                                                                                   false false true true false)
+                                                                                                                   (String.String
+                                                                                                                   (Ascii.Ascii false true true
+                                                                                                                   false false true true false)
+                                                                                                                   (String.String
+                                                                                                                   (Ascii.Ascii true false false
+                                                                                                                   false false true true false)
+                                                                                                                   (String.String
+                                                                                                                   (Ascii.Ascii true false true
+                                                                                                                   false true true true false)
+                                                                                                                   (String.String
+                                                                                                                   (Ascii.Ascii false false true
+                                                                                                                   true false true true false)
+                                                                                                                   (String.String
+                                                                                                                   (Ascii.Ascii false false true
+                                                                                                                   false true true true false)
+                                                                                                                   (String.String
+                                                                                                                   (Ascii.Ascii false false
+                                                                                                                   false false false true false
+                                                                                                                   false)
+                                                                                                                   (String.String
+                                                                                                                   (Ascii.Ascii true true false
+                                                                                                                   false false true true false)
+                                                                                                                   (String.String
+                                                                                                                   (Ascii.Ascii true false false
+                                                                                                                   false false true true false)
+                                                                                                                   (String.String
+                                                                                                                   (Ascii.Ascii true true false
+                                                                                                                   false true true true false)
+                                                                                                                   (String.String
+                                                                                                                   (Ascii.Ascii true false true
+                                                                                                                   false false true true false)
+                                                                                                                   String.EmptyString)))))))))))))))))))))))))))))))))))))))))))))
+         | Ok ((_ :: _) as cases, imp', ts5) => Ok ([SCmd c; SSwitch (length ts) v (tline (ctok c)) cases], impadd imp imp', ts5)
+         | Err e => Err e
+         | Panic => Panic
+         | Fuel => Fuel
+         end
+   | None =>
+       err_range (cur (adv (adv ts))) (cur ts2)
+         (String.String (Ascii.Ascii true false false false false true true false)
+            (String.String (Ascii.Ascii true false true false true true true false)
+               (String.String (Ascii.Ascii false false true false true true true false)
+                  (String.String (Ascii.Ascii true true true true false true true false)
+                     (String.String (Ascii.Ascii true false true true false true false false)
+                        (String.String (Ascii.Ascii false true true false true true true false)
+                           (String.String (Ascii.Ascii true false false false false true true false)
+                              (String.String (Ascii.Ascii false true false false true true true false)
+                                 (String.String (Ascii.Ascii false false false false false true false false)
+                                    (String.String (Ascii.Ascii true true false false false true true false)
+                                       (String.String (Ascii.Ascii true true true true false true true false)
+                                          (String.String (Ascii.Ascii true false true true false true true false)
+                                             (String.String (Ascii.Ascii true false true true false true true false)
+                                                (String.String (Ascii.Ascii true false false false false true true false)
+                                                   (String.String (Ascii.Ascii false true true true false true true false)
+                                                      (String.String (Ascii.Ascii false false true false false true true false)
+                                                         (String.String (Ascii.Ascii false false false false false true false false)
+                                                            (String.String (Ascii.Ascii false false false true false true true false)
+                                                               (String.String (Ascii.Ascii true false false false false true true false)
+                                                                  (String.String (Ascii.Ascii true true false false true true true false)
+                                                                     (String.String (Ascii.Ascii false false false false false true false false)
+                                                                        (String.String
+                                                                           (Ascii.Ascii true false false false false true true false)
+                                                                           (String.String
+                                                                              (Ascii.Ascii false true true true false true true false)
+                                                                              (String.String
+                                                                                 (Ascii.Ascii false false false false false true false false)
+                                                                                 (String.String
+                                                                                    (Ascii.Ascii true false false false false true true false)
+                                                                                    (String.String
+                                                                                       (Ascii.Ascii false true false false true true true false)
+                                                                                       (String.String
+                                                                                          (Ascii.Ascii true true true false false true true
+                                                                                             false)
+                                                                                          (String.String
+                                                                                             (Ascii.Ascii false false false false false true
+                                                                                                false false)
+                                                                                             (String.String
+                                                                                                (Ascii.Ascii false false false false true true
+                                                                                                   true false)
+                                                                                                (String.String
+                                                                                                   (Ascii.Ascii true true true true false true
+                                                                                                      true false)
+                                                                                                   (String.String
+                                                                                                      (Ascii.Ascii true true false false true
+                                                                                                         true true false)
+                                                                                                      (String.String
+                                                                                                         (Ascii.Ascii true false false true
+                                                                                                            false true true false)
+                                                                                                         (String.String
+                                                                                                            (Ascii.Ascii false false true false
+                                                                                                               true true true false)
+                                                                                                            (String.String
+                                                                                                               (Ascii.Ascii true false false
+                                                                                                                  true false true true false)
+                                                                                                               (String.String
+                                                                                                                  (Ascii.Ascii true true true
+                                                                                                                   true false true true false)
+                                                                                                                  (String.String
+                                                                                                                   (Ascii.Ascii false true true
+                                                                                                                   true false true true false)
+                                                                                                                   (String.String
+                                                                                                                   (Ascii.Ascii false false
+                                                                                                                   false false false true false
+                                                                                                                   false)
+                                                                                                                   (String.String
+                                                                                                                   (Ascii.Ascii true true true
+                                                                                                                   true false true true false)
+                                                                                                                   (String.String
+                                                                                                                   (Ascii.Ascii true false true
+                                                                                                                   false true true true false)
+                                                                                                                   (String.String
+                                                                                                                   (Ascii.Ascii false false true
+                                                                                                                   false true true true false)
+                                                                                                                   (String.String
+                                                                                                                   (Ascii.Ascii false false
+                                                                                                                   false false false true false
+                                                                                                                   false)
+                                                                                                                   (String.String
+                                                                                                                   (Ascii.Ascii true true true
+                                                                                                                   true false true true false)
+                                                                                                                   (String.String
+                                                                                                                   (Ascii.Ascii false true true
+                                                                                                                   false false true true false)
+                                                                                                                   (String.String
+                                                                                                                   (Ascii.Ascii false false
+                                                                                                                   false false false true false
+                                                                                                                   false)
+                                                                                                                   (String.String
+                                                                                                                   (Ascii.Ascii false true false
+                                                                                                                   false true true true false)
+                                                                                                                   (String.String
+                                                                                                                   (Ascii.Ascii true false false
+                                                                                                                   false false true true false)
+                                                                                                                   (String.String
+                                                                                                                   (Ascii.Ascii false true true
+                                                                                                                   true false true true false)
+                                                                                                                   (String.String
+                                                                                                                   (Ascii.Ascii true true true
+                                                                                                                   false false true true false)
+                                                                                                                   (String.String
+                                                                                                                   (Ascii.Ascii true false true
+                                                                                                                   false false true true false)
+                                                                                                                   String.EmptyString)))))))))))))))))))))))))))))))))))))))))))))))))
+   end).
+Proof. exact AutoVarParse.autovar_switch_equation. Qed.
+Print Assumptions autovar_switch_equation.
+
+Theorem unconfigured_command_switch_rejected :
+  forall (autovars : list (text * autovar)) (switches : list (text * text)) (env_errors : bool)
+    (parse_format : toks -> res (token * text * text * toks)) (consts : list (text * text)) (f : nat) (script : text) 
+    (bs cs : list nat) (ts : toks),
+  peekis LPAREN ts = true ->
+  peekis VAR (adv ts) = false ->
+  assoc autovars (tlit (pk 1 (adv ts))) = None ->
+  parse_switch autovars switches env_errors parse_format consts (S f) script bs cs ts =
+  err_tok (pk 1 (adv ts))
+    (String.String (Ascii.Ascii true false true false false true true false)
+       (String.String (Ascii.Ascii false false false true true true true false)
+          (String.String (Ascii.Ascii false false false false true true true false)
+             (String.String (Ascii.Ascii true false true false false true true false)
+                (String.String (Ascii.Ascii true true false false false true true false)
+                   (String.String (Ascii.Ascii false false true false true true true false)
+                      (String.String (Ascii.Ascii true false true false false true true false)
+                         (String.String (Ascii.Ascii false false true false false true true false)
+                            (String.String (Ascii.Ascii false false false false false true false false)
+                               (String.String (Ascii.Ascii false true true true false true true false)
+                                  (String.String (Ascii.Ascii true false true false false true true false)
+                                     (String.String (Ascii.Ascii false false false true true true true false)
+                                        (String.String (Ascii.Ascii false false true false true true true false)
+                                           (String.String (Ascii.Ascii false false false false false true false false)
+                                              (String.String (Ascii.Ascii false false true false true true true false)
+                                                 (String.String (Ascii.Ascii true true true true false true true false)
+                                                    (String.String (Ascii.Ascii true true false true false true true false)
+                                                       (String.String (Ascii.Ascii true false true false false true true false)
+                                                          (String.String (Ascii.Ascii false true true true false true true false)
+                                                             (String.String (Ascii.Ascii false false false false false true false false)
+                                                                (String.String (Ascii.Ascii false false true false true true true false)
+                                                                   (String.String (Ascii.Ascii true true true true false true true false)
+                                                                      (String.String
+                                                                         (Ascii.Ascii false false false false false true false false)
+                                                                         (String.String
+                                                                            (Ascii.Ascii false true false false false true true false)
+                                                                            (String.String
+                                                                               (Ascii.Ascii true false true false false true true false)
+                                                                               (String.String
+                                                                                  (Ascii.Ascii false false false false false true false false)
+                                                                                  (String.String
+                                                                                     (Ascii.Ascii true true true false false true false false)
+                                                                                     (String.String
+                                                                                        (Ascii.Ascii false true true false true false true false)
+                                                                                        (String.String
+                                                                                           (Ascii.Ascii true false false false false false true
+                                                                                              false)
+                                                                                           (String.String
+                                                                                              (Ascii.Ascii false true false false true false
+                                                                                                 true false)
+                                                                                              (String.String
+                                                                                                 (Ascii.Ascii true true true false false true
+                                                                                                    false false)
+                                                                                                 (String.String
+                                                                                                    (Ascii.Ascii false false false false false
+                                                                                                       true false false)
+                                                                                                    (String.String
+                                                                                                       (Ascii.Ascii true true true true false
+                                                                                                          true true false)
+                                                                                                       (String.String
+                                                                                                          (Ascii.Ascii false true false false
+                                                                                                             true true true false)
+                                                                                                          (String.String
+                                                                                                             (Ascii.Ascii false false false
+                                                                                                                false false true false false)
+                                                                                                             (String.String
+                                                                                                                (Ascii.Ascii true false false
+                                                                                                                   false false true true false)
+                                                                                                                (String.String
+                                                                                                                   (Ascii.Ascii true false true
+                                                                                                                   false true true true false)
+                                                                                                                   (String.String
+                                                                                                                   (Ascii.Ascii false false true
+                                                                                                                   false true true true false)
+                                                                                                                   (String.String
+                                                                                                                   (Ascii.Ascii true true true
+                                                                                                                   true false true true false)
+                                                                                                                   (String.String
+                                                                                                                   (Ascii.Ascii true false true
+                                                                                                                   true false true false false)
+                                                                                                                   (String.String
+                                                                                                                   (Ascii.Ascii false true true
+                                                                                                                   false true true true false)
+                                                                                                                   (String.String
+                                                                                                                   (Ascii.Ascii true false false
+                                                                                                                   false false true true false)
+                                                                                                                   (String.String
+                                                                                                                   (Ascii.Ascii false true false
+                                                                                                                   false true true true false)
+                                                                                                                   (String.String
+                                                                                                                   (Ascii.Ascii false false
+                                                                                                                   false false false true false
+                                                                                                                   false)
+                                                                                                                   (String.String
+                                                                                                                   (Ascii.Ascii true true false
+                                                                                                                   false false true true false)
+                                                                                                                   (String.String
+                                                                                                                   (Ascii.Ascii true true true
+                                                                                                                   true false true true false)
+                                                                                                                   (String.String
+                                                                                                                   (Ascii.Ascii true false true
+                                                                                                                   true false true true false)
+                                                                                                                   (String.String
+                                                                                                                   (Ascii.Ascii true false true
+                                                                                                                   true false true true false)
+                                                                                                                   (String.String
+                                                                                                                   (Ascii.Ascii true false false
+                                                                                                                   false false true true false)
+                                                                                                                   (String.String
+                                                                                                                   (Ascii.Ascii false true true
+                                                                                                                   true false true true false)
+                                                                                                                   (String.String
+                                                                                                                   (Ascii.Ascii false false true
+                                                                                                                   false false true true false)
+                                                                                                                   String.EmptyString))))))))))))))))))))))))))))))))))))))))))))))))))).
+Proof. exact AutoVarParse.unconfigured_command_switch_rejected. Qed.
+Print Assumptions unconfigured_command_switch_rejected.
+
+Theorem autovar_switch_parse :
+  forall (autovars : list (text * autovar)) (switches : list (text * text)) (env_errors : bool)
+    (parse_format : toks -> res (token * text * text * toks)) (consts : list (text * text)) (f : nat) (script : text) 
+    (bs cs : list nat) (ts : toks) (ss : list stmt) (imp : impdata) (rest : toks),
+  parse_switch autovars switches env_errors parse_format consts (S f) script bs cs ts = Ok (ss, imp, rest) ->
+  peekis VAR (adv ts) = false ->
+  exists (av : autovar) (c : cmd) (impc : impdata) (ts2 : toks) (cases : list scase) (impb : impdata),
+    peekis LPAREN ts = true /\
+    assoc autovars (tlit (pk 1 (adv ts))) = Some av /\
+    command_stmt switches env_errors parse_format consts f script (adv (adv ts)) = Ok (c, impc, ts2) /\
+    peekis RPAREN ts2 = true /\
+    peekis LBRACE (adv ts2) = true /\
+    parse_cases autovars switches env_errors parse_format consts f script (length ts :: bs) cs (pk 1 (adv ts2)) (adv (adv (adv ts2))) [] []
+      false imp0 = Ok (cases, impb, rest) /\
+    cases <> [] /\
+    imp = impadd impc impb /\ (exists v : text, compared_var av c = Some v /\ ss = [SCmd c; SSwitch (length ts) v (tline (ctok c)) cases]).
+Proof. exact AutoVarParse.autovar_switch_parse. Qed.
+Print Assumptions autovar_switch_parse.
+
+Theorem autovar_switch_position_out_of_range :
+  forall (autovars : list (text * autovar)) (switches : list (text * text)) (env_errors : bool)
+    (parse_format : toks -> res (token * text * text * toks)) (consts : list (text * text)) (f : nat) (script : text) 
+    (bs cs : list nat) (ts : toks) (av : autovar) (p : Z) (c : cmd) (imp : impdata) (ts2 : toks),
+  peekis LPAREN ts = true ->
+  peekis VAR (adv ts) = false ->
+  assoc autovars (tlit (pk 1 (adv ts))) = Some av ->
+  avPos av = Some p ->
+  command_stmt switches env_errors parse_format consts f script (adv (adv ts)) = Ok (c, imp, ts2) ->
+  (p < 0)%Z \/ (Z.of_nat (length (cargs c)) <= p)%Z ->
+  parse_switch autovars switches env_errors parse_format consts (S f) script bs cs ts =
+  err_range (pk 1 (adv ts)) (cur ts2)
+    (String.String (Ascii.Ascii true false false false false true true false)
+       (String.String (Ascii.Ascii true false true false true true true false)
+          (String.String (Ascii.Ascii false false true false true true true false)
+             (String.String (Ascii.Ascii true true true true false true true false)
+                (String.String (Ascii.Ascii true false true true false true false false)
+                   (String.String (Ascii.Ascii false true true false true true true false)
+                      (String.String (Ascii.Ascii true false false false false true true false)
+                         (String.String (Ascii.Ascii false true false false true true true false)
+                            (String.String (Ascii.Ascii false false false false false true false false)
+                               (String.String (Ascii.Ascii true true false false false true true false)
+                                  (String.String (Ascii.Ascii true true true true false true true false)
+                                     (String.String (Ascii.Ascii true false true true false true true false)
+                                        (String.String (Ascii.Ascii true false true true false true true false)
+                                           (String.String (Ascii.Ascii true false false false false true true false)
+                                              (String.String (Ascii.Ascii false true true true false true true false)
+                                                 (String.String (Ascii.Ascii false false true false false true true false)
+                                                    (String.String (Ascii.Ascii false false false false false true false false)
+                                                       (String.String (Ascii.Ascii false false false true false true true false)
+                                                          (String.String (Ascii.Ascii true false false false false true true false)
+                                                             (String.String (Ascii.Ascii true true false false true true true false)
+                                                                (String.String (Ascii.Ascii false false false false false true false false)
+                                                                   (String.String (Ascii.Ascii true false false false false true true false)
+                                                                      (String.String (Ascii.Ascii false true true true false true true false)
+                                                                         (String.String
+                                                                            (Ascii.Ascii false false false false false true false false)
+                                                                            (String.String
+                                                                               (Ascii.Ascii true false false false false true true false)
+                                                                               (String.String
+                                                                                  (Ascii.Ascii false true false false true true true false)
+                                                                                  (String.String
+                                                                                     (Ascii.Ascii true true true false false true true false)
+                                                                                     (String.String
+                                                                                        (Ascii.Ascii false false false false false true false
+                                                                                           false)
+                                                                                        (String.String
+                                                                                           (Ascii.Ascii false false false false true true true
+                                                                                              false)
+                                                                                           (String.String
+                                                                                              (Ascii.Ascii true true true true false true true
+                                                                                                 false)
+                                                                                              (String.String
+                                                                                                 (Ascii.Ascii true true false false true true
+                                                                                                    true false)
+                                                                                                 (String.String
+                                                                                                    (Ascii.Ascii true false false true false
+                                                                                                       true true false)
+                                                                                                    (String.String
+                                                                                                       (Ascii.Ascii false false true false true
+                                                                                                          true true false)
+                                                                                                       (String.String
+                                                                                                          (Ascii.Ascii true false false true
+                                                                                                             false true true false)
+                                                                                                          (String.String
+                                                                                                             (Ascii.Ascii true true true true
+                                                                                                                false true true false)
+                                                                                                             (String.String
+                                                                                                                (Ascii.Ascii false true true
+                                                                                                                   true false true true false)
+                                                                                                                (String.String
+                                                                                                                   (Ascii.Ascii false false
+                                                                                                                   false false false true false
+                                                                                                                   false)
+                                                                                                                   (String.String
+                                                                                                                   (Ascii.Ascii true true true
+                                                                                                                   true false true true false)
+                                                                                                                   (String.String
+                                                                                                                   (Ascii.Ascii true false true
+                                                                                                                   false true true true false)
+                                                                                                                   (String.String
+                                                                                                                   (Ascii.Ascii false false true
+                                                                                                                   false true true true false)
+                                                                                                                   (String.String
+                                                                                                                   (Ascii.Ascii false false
+                                                                                                                   false false false true false
+                                                                                                                   false)
+                                                                                                                   (String.String
+                                                                                                                   (Ascii.Ascii true true true
+                                                                                                                   true false true true false)
+                                                                                                                   (String.String
+                                                                                                                   (Ascii.Ascii false true true
+                                                                                                                   false false true true false)
+                                                                                                                   (String.String
+                                                                                                                   (Ascii.Ascii false false
+                                                                                                                   false false false true false
+                                                                                                                   false)
+                                                                                                                   (String.String
+                                                                                                                   (Ascii.Ascii false true false
+                                                                                                                   false true true true false)
+                                                                                                                   (String.String
+                                                                                                                   (Ascii.Ascii true false false
+                                                                                                                   false false true true false)
+                                                                                                                   (String.String
+                                                                                                                   (Ascii.Ascii false true true
+                                                                                                                   true false true true false)
+                                                                                                                   (String.String
+                                                                                                                   (Ascii.Ascii true true true
+                                                                                                                   false false true true false)
+                                                                                                                   (String.String
+                                                                                                                   (Ascii.Ascii true false true
+                                                                                                                   false false true true false)
+                                                                                                                   String.EmptyString))))))))))))))))))))))))))))))))))))))))))))))))).
+Proof. exact AutoVarParse.autovar_switch_position_out_of_range. Qed.
+Print Assumptions autovar_switch_position_out_of_range.
+
+Theorem autovar_switch_preamble_is_the_statement :
+  forall (autovars : list (text * autovar)) (switches : list (text * text)) (env_errors : bool)
+    (parse_format : toks -> res (token * text * text * toks)) (consts : list (text * text)) (f : nat) (script : text) 
+    (bs cs bs' cs' : list nat) (ts : toks) (ss : list stmt) (imp : impdata) (rest : toks),
+  parse_switch autovars switches env_errors parse_format consts (S f) script bs cs ts = Ok (ss, imp, rest) ->
+  peekis VAR (adv ts) = false ->
+  ttype (pk 1 (adv ts)) = IDENT ->
+  try_label (adv (adv ts)) = None ->
+  exists (c : cmd) (impc : impdata) (ts2 : toks) (sw : stmt) (impb : impdata),
+    parse_stmt autovars switches env_errors parse_format consts (S f) script bs' cs' (adv (adv ts)) = Ok ([SCmd c], impc, ts2) /\
+    ss = [SCmd c; sw] /\ imp = impadd impc impb.
+Proof. exact AutoVarParse.autovar_switch_preamble_is_the_statement. Qed.
+Print Assumptions autovar_switch_preamble_is_the_statement.
+
+Theorem command_stmt_mono :
+  forall (switches : list (text * text)) (env_errors : bool) (parse_format : toks -> res (token * text * text * toks))
+    (consts : list (text * text)) (f g : nat) (script : text) (ts : toks) (r : cmd * impdata * toks),
+  f <= g ->
+  command_stmt switches env_errors parse_format consts f script ts = Ok r ->
+  command_stmt switches env_errors parse_format consts g script ts = Ok r.
+Proof. exact AutoVarParse.command_stmt_mono. Qed.
+Print Assumptions command_stmt_mono.
+
+Theorem every_preamble_in_a_condition :
+  forall (autovars : list (text * autovar)) (switches : list (text * text)) (env_errors : bool)
+    (parse_format : toks -> res (token * text * text * toks)) (consts : list (text * text)),
+  (forall (ts : toks) (tk : token) (v sty : text) (ts' : toks),
+   parse_format ts = Ok (tk, v, sty, ts') -> forall a : toks, advs a ts -> advs a ts') ->
+  forall (f : nat) (single neg : bool) (script : text) (ts : toks) (e : bexp) (imp : impdata) (ts' : toks) (l : leaf) (c : cmd),
+  bool_expr autovars switches env_errors parse_format consts f single neg script ts = Ok (e, imp, ts') ->
+  In l (leaves e) ->
+  lpre l = Some c ->
+  exists (tsc : toks) (av : autovar) (impc : impdata) (ts2 : toks),
+    advs ts tsc /\
+    ttype (cur tsc) = IDENT /\
+    assoc autovars (tlit (cur tsc)) = Some av /\
+    command_stmt switches env_errors parse_format consts f script tsc = Ok (c, impc, ts2) /\
+    (forall bs cs : list nat,
+     try_label tsc = None -> parse_stmt autovars switches env_errors parse_format consts (S f) script bs cs tsc = Ok ([SCmd c], impc, ts2)) /\
+    lk l = KVar /\ lline l = tline (ctok c) /\ compared_var av c = Some (loperand l).
+Proof. exact AutoVarParse.every_preamble_in_a_condition. Qed.
+Print Assumptions every_preamble_in_a_condition.
+
+Theorem every_preamble_in_an_if_or_while_condition :
+  forall (autovars : list (text * autovar)) (switches : list (text * text)) (env_errors : bool)
+    (parse_format : toks -> res (token * text * text * toks)) (consts : list (text * text)),
+  (forall (ts : toks) (tk : token) (v sty : text) (ts' : toks),
+   parse_format ts = Ok (tk, v, sty, ts') -> forall a : toks, advs a ts -> advs a ts') ->
+  forall (f : nat) (require : bool) (script : text) (bs cs : list nat) (ts : toks) (e : bexp) (b : list stmt) (imp : impdata) 
+    (ts' : toks) (l : leaf) (c : cmd),
+  parse_cond autovars switches env_errors parse_format consts (S f) require script bs cs ts = Ok (Some e, b, imp, ts') ->
+  In l (leaves e) ->
+  lpre l = Some c ->
+  exists (tsc : toks) (av : autovar) (impc : impdata) (ts2 : toks),
+    advs ts tsc /\
+    ttype (cur tsc) = IDENT /\
+    assoc autovars (tlit (cur tsc)) = Some av /\
+    command_stmt switches env_errors parse_format consts f script tsc = Ok (c, impc, ts2) /\
+    lk l = KVar /\ lline l = tline (ctok c) /\ compared_var av c = Some (loperand l).
+Proof. exact AutoVarParse.every_preamble_in_an_if_or_while_condition. Qed.
+Print Assumptions every_preamble_in_an_if_or_while_condition.
+
+Theorem every_preamble_in_a_do_while_condition :
+  forall (autovars : list (text * autovar)) (switches : list (text * text)) (env_errors : bool)
+    (parse_format : toks -> res (token * text * text * toks)) (consts : list (text * text)),
+  (forall (ts : toks) (tk : token) (v sty : text) (ts' : toks),
+   parse_format ts = Ok (tk, v, sty, ts') -> forall a : toks, advs a ts -> advs a ts') ->
+  forall (f : nat) (script : text) (bs cs : list nat) (ts : toks) (tg : nat) (b : list stmt) (e : bexp) (imp : impdata) 
+    (ts' : toks) (l : leaf) (c : cmd),
+  ttype (cur ts) = DO ->
+  parse_stmt autovars switches env_errors parse_format consts (S f) script bs cs ts = Ok ([SDoWhile tg b e], imp, ts') ->
+  In l (leaves e) ->
+  lpre l = Some c ->
+  exists (tsc : toks) (av : autovar) (impc : impdata) (ts2 : toks),
+    ttype (cur tsc) = IDENT /\
+    assoc autovars (tlit (cur tsc)) = Some av /\
+    command_stmt switches env_errors parse_format consts f script tsc = Ok (c, impc, ts2) /\
+    lk l = KVar /\ lline l = tline (ctok c) /\ compared_var av c = Some (loperand l).
+Proof. exact AutoVarParse.every_preamble_in_a_do_while_condition. Qed.
+Print Assumptions every_preamble_in_a_do_while_condition.
+
+Theorem autovar_leaf_head :
+  forall (autovars : list (text * autovar)) (switches : list (text * text)) (env_errors : bool)
+    (parse_format : toks -> res (token * text * text * toks)) (consts : list (text * text)) (script : text) (f : nat) 
+    (pre name lp : token) (a : arglist) (rp : token) (R : list token) (av : autovar) (v : text),
+  cmd_ok switches env_errors parse_format name lp a rp ->
+  assoc autovars (tlit name) = Some av ->
+  compared_var av (parsed_cmd consts name lp a rp R) = Some v ->
+  length (arg_tokens a) < f ->
+  R <> [] ->
+  leaf_expr autovars switches env_errors parse_format consts f script (pre :: name :: lp :: arg_tokens a ++ rp :: R) =
+  (do (o, val, strict, ts5) <- cond_var_operator consts f R;
+   Ok (autovar_leaf (parsed_cmd consts name lp a rp R) v o val strict, parsed_imp script name lp a rp R, ts5)).
+Proof. exact AutoVarParse.autovar_leaf_head. Qed.
+Print Assumptions autovar_leaf_head.
+
+Theorem autovar_leaf_compared :
+  forall (autovars : list (text * autovar)) (switches : list (text * text)) (env_errors : bool)
+    (parse_format : toks -> res (token * text * text * toks)) (consts : list (text * text)) (script : text) (F0 : nat) 
+    (name lp : token) (a : arglist) (rp o : token) (op : cmpop) (vals R : list token) (av : autovar) (v : text),
+  1 <= F0 ->
+  cmd_ok switches env_errors parse_format name lp a rp ->
+  assoc autovars (tlit name) = Some av ->
+  is_cmp_tok o = Some op ->
+  value_ok vals ->
+  compared_var av (parsed_cmd consts name lp a rp (o :: vals ++ R)) = Some v ->
+  follow R ->
+  leaf_spec_at autovars switches env_errors parse_format consts script F0 (cmd_toks name lp a rp ++ o :: vals)
+    (autovar_leaf (parsed_cmd consts name lp a rp (o :: vals ++ R)) v op (opnd consts vals) false)
+    (parsed_imp script name lp a rp (o :: vals ++ R)) R.
+Proof. exact AutoVarParse.autovar_leaf_compared. Qed.
+Print Assumptions autovar_leaf_compared.
+
+Theorem condition_with_autovar_leaves_parses_to_its_meaning :
+  forall (autovars : list (text * autovar)) (switches : list (text * text)) (env_errors : bool)
+    (parse_format : toks -> res (token * text * text * toks)) (consts : list (text * text)) (script : text) (F0 : nat) 
+    (St : Type) (exec : cmd -> St -> stepres St) (flag_set trainer_beaten : text -> St -> bool)
+    (cmp_var cmp_var_value : text -> text -> St -> comparison) (e : expr) (lp : token) (rest : list token) (f : nat),
+  wf_expr_at autovars switches env_errors parse_format consts script F0 e rest ->
+  lok_expr e ->
+  need_expr F0 e <= f ->
+  stop rest ->
+  exists (T : bexp) (imp' : impdata),
+    bool_expr autovars switches env_errors parse_format consts f false false script (lp :: print_expr e ++ rest) = Ok (T, imp', rest) /\
+    imp_eq imp' (imp_expr e) /\
+    (forall s : St,
+     eval_bexp St exec flag_set trainer_beaten cmp_var cmp_var_value T s = sev_expr St exec flag_set trainer_beaten cmp_var cmp_var_value e s).
+Proof. exact AutoVarParse.condition_with_autovar_leaves_parses_to_its_meaning. Qed.
+Print Assumptions condition_with_autovar_leaves_parses_to_its_meaning.
+
+Theorem autovar_leaf_meaning :
+  forall (St : Type) (exec : cmd -> St -> stepres St) (flag_set trainer_beaten : text -> St -> bool)
+    (cmp_var cmp_var_value : text -> text -> St -> comparison) (c : cmd) (v : text) (o : cmpop) (val : text) (strict : bool) 
+    (s s' : St),
+  exec c s = Continue St s' ->
+  eval_leaf St exec flag_set trainer_beaten cmp_var cmp_var_value (autovar_leaf c v o val strict) s =
+  ([c], s', Some (cmp_holds o ((if strict then cmp_var_value else cmp_var) v val s'))).
+Proof. exact AutoVarParse.autovar_leaf_meaning. Qed.
+Print Assumptions autovar_leaf_meaning.
+
+Theorem preamble_rendered_as_statement :
+  forall (mpath : option text) (name : text) (ch : chunk) (next : Z) (l : leaf) (tr fa : Z) (c : cmd),
+  cbr ch = Some (BrLeaf l tr fa) ->
+  lpre l = Some c ->
+  (exists more : list instr, Datatypes.fst (Datatypes.fst (render_branch mpath name ch next)) = ICmd c :: more) /\
+  (exists before : list instr, render_stmt mpath (SCmd c) = before ++ [ICmd c] /\ before = marker mpath (tline (ctok c))) /\
+  (forall p : text, print_instr p (ICmd c) = render_cmd c).
+Proof. exact AutoVarParse.preamble_rendered_as_statement. Qed.
+Print Assumptions preamble_rendered_as_statement.
+
